@@ -392,3 +392,68 @@ pub fn bitfinex_validate(env: &SocketEnv, map: Map<Key>, requests: &[String], ch
         }
     }
 }
+
+// ---------------------------------------------------------------------------------------------
+// Subscription-validation window: the real `WebSocketSubValidator` against a loopback venue that sends
+// market data BETWEEN its subscription acknowledgements (one ack per subscription: Okx, Kraken, ...).
+// The validator buffers those messages; `MarketStream::init` replays them through
+// `process_buffered_events` (done by `run_stream` with the returned buffer).
+
+fn window_validate_generic<Ex, Kind, Tr>(env: &SocketEnv, map: Map<Key>, messages: &[String]) -> ValidateOutcome
+where
+    Ex: Connector + Send,
+    Kind: SubscriptionKind + Send,
+    Tr: ExchangeTransformer<Ex, Key, Kind>,
+{
+    use barter_data::subscriber::validator::{SubscriptionValidator, WebSocketSubValidator};
+    let url = format!("ws://127.0.0.1:{}", env.port);
+    let fut = async {
+        let (done_tx, done_rx) = tokio::sync::oneshot::channel::<()>();
+        let server = async {
+            let (tcp, _) = env.listener.accept().await.map_err(|e| format!("accept: {e}"))?;
+            let _ = tcp.set_nodelay(true);
+            let mut ws = tokio_tungstenite::accept_async(tcp).await.map_err(|e| format!("ws accept: {e}"))?;
+            for m in messages {
+                ws.send(WsMessage::text(m.clone())).await.map_err(|e| format!("venue send: {e}"))?;
+            }
+            let _ = done_rx.await;
+            Ok::<(), String>(())
+        };
+        let client = async {
+            let res = async {
+                let mut ws = connect(url.clone()).await.map_err(|e| ValidateOutcome::Harness(format!("connect: {e}")))?;
+                let out = WebSocketSubValidator::validate::<Ex, Key, Kind>(map, &mut ws).await;
+                Ok::<_, ValidateOutcome>(out)
+            }
+            .await;
+            let _ = done_tx.send(());
+            res
+        };
+        tokio::join!(server, client)
+    };
+    let joined = env.rt.block_on(async { tokio::time::timeout(Duration::from_secs(30), fut).await });
+    match joined {
+        Err(_) => ValidateOutcome::Harness("loopback session timed out (30 s)".into()),
+        Ok((Err(server_err), _)) => ValidateOutcome::Harness(server_err),
+        Ok((Ok(()), Err(h))) => h,
+        Ok((Ok(()), Ok(Ok((map, buffered))))) => ValidateOutcome::Ok(map, buffered),
+        Ok((Ok(()), Ok(Err(e)))) => {
+            let s = e.to_string();
+            if s.contains("timeout") { ValidateOutcome::Harness(format!("validator timed out: {s}")) } else { ValidateOutcome::Rejected(s) }
+        }
+    }
+}
+
+pub fn window_validate(pair: &str, env: &SocketEnv, map: Map<Key>, messages: &[String]) -> ValidateOutcome {
+    let r: Result<ValidateOutcome, String> = for_pair!(pair, window_ok(env, map, messages));
+    r.unwrap_or_else(ValidateOutcome::Harness)
+}
+
+fn window_ok<Ex, Kind, Tr>(env: &SocketEnv, map: Map<Key>, messages: &[String]) -> Result<ValidateOutcome, String>
+where
+    Ex: Connector + Send,
+    Kind: SubscriptionKind + Send,
+    Tr: ExchangeTransformer<Ex, Key, Kind>,
+{
+    Ok(window_validate_generic::<Ex, Kind, Tr>(env, map, messages))
+}
